@@ -217,6 +217,7 @@ func (c *Ctx) c12Scripts() error {
 			}
 		}
 		sb.WriteString("type D S\n") // a type defined from S finds S's methods
+		sb.WriteString("func pick(s *S, tag int) *S {\n\tprintln(\"pick\", tag)\n\treturn s\n}\n") // an instance reached through a call with a visible effect
 		sb.WriteString("func run() {\na := &S{}\nb := &S{}\nc := a\n_ = c\n")
 		// mirrors: instances a (aliased by c) and b
 		inst := map[string][]int64{"a": make([]int64, nf), "b": make([]int64, nf)}
@@ -250,6 +251,25 @@ func (c *Ctx) c12Scripts() error {
 				inst[bind[o]][f] = x
 				continue
 			case op >= 10:
+				continue
+			case op == 9 && nf > 0 && ftype(r.Intn(nf)) != "": // compound updates of a field of a call's result: the call runs once
+				f := r.Intn(nf)
+				switch r.Intn(3) {
+				case 0:
+					fmt.Fprintf(&sb, "pick(%s, %d).F%d += 3\n", v, k, f)
+					inst[real][f] += 3
+				case 1:
+					fmt.Fprintf(&sb, "pick(%s, %d).F%d++\n", v, k, f)
+					inst[real][f]++
+				default:
+					fmt.Fprintf(&sb, "pick(%s, %d).F%d = 7\n", v, k, f)
+					inst[real][f] = 7
+				}
+				if f%7 == 3 {
+					inst[real][f] %= 256
+				}
+				want = append(want, fmt.Sprintf("pick %d", k))
+				c.Rep.Count("struct-script-field-of-call-result")
 				continue
 			case op < 4 && nf > 0:
 				f := r.Intn(nf)
